@@ -1,4 +1,6 @@
 import Hifi.Lemmas.Calendar
+import Hifi.Spec.Epoch
+import Hifi.Gen.Leap
 /-
   C08  Gregorian date -> Epoch: exact day count, valid dates accepted, invalid rejected.
 
@@ -62,6 +64,41 @@ theorem leap_second_years_are_iers (dt : Date) :
     iersLeapDates.contains dt = true ↔
       (dt.d = 1 ∧ ((dt.m = 1 ∧ Cal.januaryYears dt.y = true) ∨ (dt.m = 7 ∧ Cal.julyYears dt.y = true))) :=
   mem_iers_iff dt
+
+/-! ### the hand-typed data of the specification are tied to the sources and to each other -/
+
+/-- `Spec.iersLeapDates` (hand-typed in `Spec/Calendar.lean`) IS the date column of data/leap-seconds.list
+    (`Gen.IERS_TEXT`, regenerated from the file at every run: day, month, year of each line's comment),
+    entry for entry and in the same order -/
+theorem iers_dates_are_the_file :
+    Gen.IERS_TEXT.map (fun e => (⟨e.2.2.2.2, e.2.2.2.1, e.2.2.1⟩ : Date)) = iersLeapDates := by decide
+
+/-- … and each line of the file is consistent with itself in the SPECIFICATION calendar: the NTP time stamp
+    (seconds since 1900-01-01) is `dayNumber`(date of the comment) × 86 400, the dates are valid and the
+    TAI−UTC column counts 10, 11, …, 37 -/
+theorem iers_stamps_are_day_numbers :
+    Gen.IERS_TEXT.all (fun e => decide (dayNumber ⟨e.2.2.2.2, e.2.2.2.1, e.2.2.1⟩ * 86400 = e.1) &&
+      validDate ⟨e.2.2.2.2, e.2.2.2.1, e.2.2.1⟩) = true ∧
+    Gen.IERS_TEXT.map (fun e => e.2.1) = (List.range 28).map (fun (i : Nat) => (i : Int) + 10) := by decide
+
+/-- the same two facts read off the specification's list: the i-th date of `iersLeapDates` has day number
+    (i-th NTP stamp of the file) / 86 400 -/
+theorem iers_dates_day_numbers :
+    iersLeapDates.map (fun d => dayNumber d * 86400) = Gen.IERS_TEXT.map (fun e => e.1) := by decide
+
+/-- `Spec.civilDays` — the closed day-count formula of `Spec/Epoch.lean` that C05, C06, C16 and C17 use —
+    IS the day count of the successor-structure calendar (`dayNumber`, characterised above), for every year,
+    every month number 1..12 and every day number (valid or not) -/
+theorem civil_eq (y m d : Int) (hm : 1 ≤ m ∧ m ≤ 12) : civilDays y m d = dayNumber ⟨y, m, d⟩ := by
+  unfold civilDays dayNumber
+  simp only []
+  obtain ⟨h1, h2⟩ := hm
+  have hmc : m = 1 ∨ m = 2 ∨ m = 3 ∨ m = 4 ∨ m = 5 ∨ m = 6 ∨ m = 7 ∨ m = 8 ∨ m = 9 ∨ m = 10 ∨ m = 11 ∨ m = 12 := by omega
+  rcases hmc with h | h | h | h | h | h | h | h | h | h | h | h <;> subst h <;> simp <;> omega
+
+/-- far enough outside 1..12 the two formulas are different extrapolations (neither is a date): decided
+    witness, so `civil_eq` needs a hypothesis on the month -/
+theorem civil_eq_needs_month : civilDays 2000 15 1 ≠ dayNumber ⟨2000, 15, 1⟩ := by decide
 
 /-- the nine `gregorian_epoch_offset`s (prime offset minus its seconds-of-minute part: the 19 s of
     GPST/GST/QZSST and the 33 s of BDT are dropped, J2000 noon is kept), never failing, canonical, and
